@@ -181,6 +181,7 @@ type blockCtx struct {
 	ephemeral []types.SiacoinElement // v2 outputs created in this block, spendable ephemerally
 	v1made    []v1eph               // v1 outputs created in this block
 	inblock   []*inblockFC          // v1 contracts created or revised in this block
+	v2revised map[types.FileContractID]types.V2FileContract // latest in-block revision of v2 contracts
 }
 
 type inblockFC struct {
@@ -189,6 +190,7 @@ type inblockFC struct {
 	elemWindowStart uint64             // WindowStart of the diff's FileContractElement (decides the window id)
 	data            []byte
 	proved          bool
+	created         bool
 }
 
 type v1eph struct {
@@ -455,7 +457,7 @@ func (s *Sim) v1Form(ctx *blockCtx) (types.Transaction, consensus.V1TransactionS
 	txn.FileContracts = []types.FileContract{fc}
 	s.payOutV1(ctx, &txn, sum.Sub(payout))
 	s.Files[FileRoot(data)] = data
-	ctx.inblock = append(ctx.inblock, &inblockFC{id: txn.FileContractID(0), fc: fc, elemWindowStart: fc.WindowStart, data: data})
+	ctx.inblock = append(ctx.inblock, &inblockFC{id: txn.FileContractID(0), fc: fc, elemWindowStart: fc.WindowStart, data: data, created: true})
 	s.Counts["v1:form"]++
 	return txn, ts, nil
 }
@@ -469,10 +471,53 @@ func sortedFC(m map[types.FileContractID]types.FileContractElement) []types.File
 	return out
 }
 
+// reviseContent produces a revision of cur with fresh data, windows and output split.
+func (s *Sim) reviseContent(ctx *blockCtx, cur types.FileContract) (types.FileContract, []byte) {
+	child := s.ChildHeight()
+	fc := cur
+	fc.RevisionNumber += 1 + uint64(s.Rng.Intn(3))
+	data := s.randData()
+	fc.Filesize, fc.FileMerkleRoot = uint64(len(data)), FileRoot(data)
+	fc.WindowStart = child + uint64(s.Rng.Intn(4))
+	fc.WindowEnd = fc.WindowStart + 1 + uint64(s.Rng.Intn(4))
+	var vsum, msum types.Currency
+	for _, o := range fc.ValidProofOutputs {
+		vsum = vsum.Add(o.Value)
+	}
+	for _, o := range fc.MissedProofOutputs {
+		msum = msum.Add(o.Value)
+	}
+	fc.ValidProofOutputs, fc.MissedProofOutputs = nil, nil
+	for _, p := range s.split(vsum, 1+s.Rng.Intn(3)) {
+		fc.ValidProofOutputs = append(fc.ValidProofOutputs, types.SiacoinOutput{Value: p, Address: s.newAddr(false, ctx.ts)})
+	}
+	for _, p := range s.split(msum, 1+s.Rng.Intn(3)) {
+		fc.MissedProofOutputs = append(fc.MissedProofOutputs, types.SiacoinOutput{Value: p, Address: s.newAddr(false, ctx.ts)})
+	}
+	fc.Payout = types.ZeroCurrency // not part of a revision
+	return fc, data
+}
+
 func (s *Sim) v1Revise(ctx *blockCtx) (types.Transaction, consensus.V1TransactionSupplement, error) {
 	var txn types.Transaction
 	var ts consensus.V1TransactionSupplement
 	child := s.ChildHeight()
+	// a contract created or revised by an earlier transaction of this block may be revised again
+	if len(ctx.inblock) > 0 && s.Rng.Intn(3) == 0 {
+		ib := ctx.inblock[s.Rng.Intn(len(ctx.inblock))]
+		if r := s.recipeFor(ib.fc.UnlockHash); r != nil && !ib.proved && ib.fc.WindowStart >= child {
+			fc, data := s.reviseContent(ctx, ib.fc)
+			txn.FileContractRevisions = []types.FileContractRevision{{ParentID: ib.id, UnlockConditions: *r.UC, FileContract: fc}}
+			s.Files[FileRoot(data)] = data
+			fc.Payout = ib.fc.Payout
+			ib.fc, ib.data = fc, data
+			if ib.created {
+				ib.elemWindowStart = fc.WindowStart
+			}
+			s.Counts["v1:revise-again-same-block"]++
+			return txn, ts, nil
+		}
+	}
 	for _, e := range sortedFC(s.St.FC) {
 		if ctx.used[types.Hash256(e.ID)] || e.FileContract.WindowStart < child || s.Rng.Intn(2) == 0 {
 			continue
@@ -783,11 +828,20 @@ func sortedV2FC(m map[types.FileContractID]types.V2FileContractElement) []types.
 func (s *Sim) v2Revise(ctx *blockCtx) (*v2Pending, error) {
 	child := s.ChildHeight()
 	for _, e := range sortedV2FC(s.St.V2FC) {
-		if ctx.used[types.Hash256(e.ID)] || e.V2FileContract.ProofHeight < child || s.Rng.Intn(2) == 0 {
+		latest, again := ctx.v2revised[e.ID]
+		if (ctx.used[types.Hash256(e.ID)] && !(again && s.Rng.Intn(2) == 0)) || e.V2FileContract.ProofHeight < child || s.Rng.Intn(2) == 0 {
 			continue
 		}
 		ctx.used[types.Hash256(e.ID)] = true
 		cur := e.V2FileContract
+		if again {
+			// revised earlier in this block: the new revision is judged against (and signed by the keys of) that revision
+			if latest.ProofHeight < child {
+				continue
+			}
+			cur = latest
+			s.Counts["v2:revise-again-same-block"]++
+		}
 		rev := cur
 		rev.RevisionNumber += 1 + uint64(s.Rng.Intn(3))
 		data := s.randData()
@@ -818,6 +872,10 @@ func (s *Sim) v2Revise(ctx *blockCtx) (*v2Pending, error) {
 		s.signContract(&rev, cur.RenterPublicKey, cur.HostPublicKey)
 		p := &v2Pending{}
 		p.txn.FileContractRevisions = []types.V2FileContractRevision{{Parent: e.Copy(), Revision: rev}}
+		if ctx.v2revised == nil {
+			ctx.v2revised = map[types.FileContractID]types.V2FileContract{}
+		}
+		ctx.v2revised[e.ID] = rev
 		s.Files[FileRoot(data)] = data
 		s.Counts["v2:revise"]++
 		return p, nil
